@@ -1331,16 +1331,26 @@ class ManifestRecursiveLoader:
                         mm.entries.append(fe)
                         self.updated_manifests.add(mmpath)
                     else:
-                        if ftype == 'AUX':
+                        # NB: test the entry's own type, ftype is
+                        # the type of the last file scanned
+                        if fe.tag == 'AUX':
                             # AUX has implicit files/ prefix in .path
                             # but for now, we've shoved our path
                             # into .aux_path
-                            fe.path = os.path.relpath(fe.aux_path,
-                                                      mdirpath)
-                            assert path_inside_dir(fe.path, 'files')
-                            # drop files/ prefix for the entry
-                            fe.aux_path = os.path.relpath(
-                                fe.path, 'files')
+                            fepath = os.path.relpath(fe.aux_path,
+                                                     mdirpath)
+                            if path_inside_dir(fepath, 'files'):
+                                fe.path = fepath
+                                # drop files/ prefix for the entry
+                                fe.aux_path = os.path.relpath(
+                                    fe.path, 'files')
+                            else:
+                                # not in files/ of the directory
+                                # holding the Manifest, so it can not
+                                # be expressed as AUX
+                                fe = new_manifest_entry(
+                                    'DATA', fepath, fe.size,
+                                    fe.checksums)
                         else:
                             fe.path = os.path.relpath(fe.path, mdirpath)
                         # do not add duplicate entry if the path is ignored
